@@ -18,7 +18,8 @@ PathOf(d, ix) == Dirs[d] \o Pool[ix]
 ScenarioOfRel(ms, paths, rel) ==
   LET n == Len(ms)
       Create(out, ins, expect) == IF rel THEN VolCreateRel(out, ins, expect) ELSE VolCreate(out, ins, expect)
-      samePath == \E i, j \in 1..n : i # j /\ paths[i] = paths[j]        \* one file listed twice: same name, refused as duplicate
+      StripDotSlash(q) == IF Len(q) >= 2 /\ SubSeq(q, 1, 2) = <<46,47>> THEN SubSeq(q, 3, Len(q)) ELSE q
+      samePath == \E i, j \in 1..n : i # j /\ StripDotSlash(paths[i]) = StripDotSlash(paths[j])        \* one FILE listed twice ("x" and "./x" are the same file): the scenario would overwrite its own input
       puts == [i \in 1..n |-> Put(paths[i], ms[i].data)]
       refused == HasDup(ms)
       s == SortCI(ms)
